@@ -52,6 +52,7 @@ class Obligation:
         self.solver_s = 0.0
         self.reason = ""
         self.candidate = None   # candidate counter-model of an undecided obligation (quantifier instantiation incomplete)
+        self.lossy = None       # the path lost information (loop without invariant): a counter-model may be an artefact
 
 
 class PathResult:
@@ -73,6 +74,8 @@ class Ctx:
         self.func = ""
         self.obligations = []
         self.where_log = []
+        self.reduce_log = []
+        self.lossy = None       # set when information was dropped on this path (a loop cut without a sidecar invariant): failures are then not verdicts
 
     def decisions_taken(self):
         return self.taken
@@ -205,6 +208,7 @@ class Ctx:
         g = z3.simplify(goal)
         if len(self.taken) >= len(self.prefix):     # otherwise already emitted by the parent path
             ob = Obligation(oid, kind, self.hyps(), goal, detail, self.func, self.lineno, self.taken)
+            ob.lossy = self.lossy
             if z3.is_true(g):
                 ob.result, ob.backend = "proved", "simplifier"
             self.session.add_obligation(ob)
@@ -392,6 +396,17 @@ def _solve_cvc5(solver, timeout_ms):
 def discharge(ob, timeout_ms=None, use_cvc5=True):
     if ob.result is not None:
         return ob
+    _discharge(ob, timeout_ms, use_cvc5)
+    if ob.result == "failed" and getattr(ob, "lossy", None):
+        # the state this obligation speaks about was havocked without an invariant: the counter-model may not correspond to any execution.
+        # Undecided; the model is kept as a candidate (a failing native replay can still confirm it)
+        ob.result = "undecided"
+        ob.reason = f"not decidable here: {ob.lossy}"
+        ob.candidate, ob.model = ob.model, None
+    return ob
+
+
+def _discharge(ob, timeout_ms=None, use_cvc5=True):
     timeout_ms = timeout_ms or QUICK_TIMEOUT_MS
     if z3.is_false(z3.simplify(ob.goal)):
         # a structural obligation that evaluated to False: it fails unless the path itself is infeasible
